@@ -103,10 +103,18 @@ inline void current(const std::string &key) { if (S().cur) { strncpy(S().cur, ke
 // shard filter on a running case counter: call once per enumerated case, in enumeration order
 inline bool mine() { State &s = S(); uint64_t i = s.case_counter++; return (int)(i % (uint64_t)s.nshards) == s.shard; }
 // replay filter: run only the case whose key equals --only (when given)
-inline bool want(const std::string &key) { return S().only.empty() || S().only == key; }
+inline bool want(const std::string &key) {
+    const std::string &o = S().only; static const std::string EOG = "(end-of-group)";
+    if (o.empty() || o == key) return true;
+    if (o.size() > EOG.size() && o.compare(o.size() - EOG.size(), EOG.size(), EOG) == 0) return key.compare(0, o.size() - EOG.size(), o, 0, o.size() - EOG.size()) == 0; // replay of a whole group
+    return false;
+}
 // a case is taken when it passes the replay filter and belongs to this shard
 inline bool take(const std::string &key) { if (!S().only.empty()) return S().only == key; return mine(); }
 
+// group of cases run together (e.g. in one forked child): sharded as one unit; a replay key selects the group by prefix
+inline bool take_group(const std::string &prefix) { if (!S().only.empty()) return S().only.compare(0, prefix.size(), prefix) == 0; return mine(); }
+inline std::string curkey() { return S().cur ? std::string(S().cur) : std::string(); }
 inline void eval(uint64_t n = 1) { S().evaluations += n; }
 inline void nontrivial(uint64_t n = 1) { S().nontrivial += n; }
 inline void outcome(uint64_t h) { if (S().outcomes.size() < 8192) S().outcomes.insert(h); }
